@@ -97,7 +97,51 @@ def at(tab, i):          # cyclic menu lookup, i 0-based
 # --------------------------------------------------------------------------------------------
 # instance generation
 # --------------------------------------------------------------------------------------------
-KINDS = ["dict", "dict", "table", "uniform", "det", "softmax", "pairs", "table"]
+KINDS = ["dict", "softmax", "table", "uniform", "det", "softmax", "pairs", "table"]
+TINYGAP = 64          # as in the spec: a finite score more than 64 ln 2 below the maximum is `tiny`
+TINY_REAL = 1e-18     # what the real code may report for such an event (2^-64 = 5.4e-20)
+WIDE_GAPS = [70, 200, 1100, 1500, 3000]
+
+
+def fix_rec(r):
+    r.setdefault("ni", [0] * len(r["ev"]))
+    return r
+
+
+def fix_inst(inst):
+    fix_rec(inst["init"])
+    for r in inst["O"]:
+        fix_rec(r)
+    for row in inst["K"]:
+        for r in row:
+            fix_rec(r)
+    return inst
+
+
+def softmax_corner(rng, rec, style):
+    """Softmax corner inputs: very wide score spreads and / or -infinity scores (>= 1 near-max finite score)."""
+    n = len(rec["ev"])
+    if n == 1:
+        return rec
+    order = rng.sample(range(n), n)
+    keep = order[0]                                   # stays the (near-)maximum
+    for i in order[1:]:
+        r = rng.random()
+        if style in ("wide", "both") and r < 0.6:
+            rec["k"][i] = rec["k"][keep] - rng.choice(WIDE_GAPS) - rng.randint(0, 3)
+        elif style in ("ninf", "both") and r < (0.95 if style == "both" else 0.6):
+            rec["ni"][i] = 1
+    if style in ("wide", "both") and not any(rec["k"][keep] - rec["k"][i] > TINYGAP for i in range(n)):
+        rec["k"][order[1]] = rec["k"][keep] - rng.choice(WIDE_GAPS)
+        rec["ni"][order[1]] = 0
+    if style in ("ninf", "both") and not any(rec["ni"]):
+        rec["ni"][order[-1]] = 1
+    # every finite score within 8 of the maximum or more than 64 below (filter SoftmaxOK of the spec)
+    mx = max(k for k, f in zip(rec["k"], rec["ni"]) if not f)
+    for i in range(n):
+        if not rec["ni"][i] and 8 < mx - rec["k"][i] <= TINYGAP:
+            rec["k"][i] = mx - 2
+    return rec
 
 
 def rand_rec(rng, kind=None, size=None, allow_zero_mass=False):
@@ -130,6 +174,7 @@ def rand_rec(rng, kind=None, size=None, allow_zero_mass=False):
             w[rng.randrange(size)] = rng.choice([1, 2])
         rec["w"] = w
         rec["d"] = rng.choice([sum(w), sum(w), 4, 2, 1]) if sum(w) > 0 else rng.choice([1, 2])
+    rec["ni"] = [0] * len(rec["ev"])
     return rec
 
 
@@ -179,12 +224,39 @@ def o_distof(r):
     if k == "det":
         return {ev[0]: F(1)}
     if k == "softmax":
-        u = [F(2) ** s for s in r["k"]]
+        ni = r.get("ni") or [0] * len(ev)
+        mx = max(s for s, f in zip(r["k"], ni) if not f)
+        u = [F(0) if (f or mx - s > TINYGAP) else F(1, 2 ** (mx - s)) for s, f in zip(r["k"], ni)]
         return {e: x / sum(u) for e, x in zip(ev, u)}
     d = {}
     for e, w in zip(ev, r["w"]):
         d[e] = d.get(e, F(0)) + F(w, r["d"])
     return d
+
+
+def o_tiny0(r, scores=None):
+    """Events of a softmax record whose weight is not tracked (spec: SoftmaxTiny)."""
+    if r["kind"] != "softmax":
+        return set()
+    k = scores if scores is not None else r["k"]
+    ni = r.get("ni") or [0] * len(k)
+    mx = max(s for s, f in zip(k, ni) if not f)
+    return {ev_of(e) for e, s, f in zip(r["ev"], k, ni) if not f and mx - s > TINYGAP}
+
+
+def o_tiny_after(inst, D, tn, sc2, op, j, a, post):
+    if op == "shift":
+        return o_tiny0(inst["init"], sc2)
+    if not tn:
+        return set()
+    evs = list(D)
+    if op == "marg":
+        return {a[i] for i, e in enumerate(evs) if e in tn}
+    if op == "chain":
+        return {y for i, e in enumerate(evs) if e in tn for y in a[i]}
+    if op == "joint":
+        return {(x, y) for x in tn for y in a}
+    return {e for e in tn if e in post}
 
 
 def o_args(inst, D, op, j):
@@ -280,7 +352,7 @@ def o_tree(inst):
     """All chains of DEPTH enabled operations: {chain: [(post, obs), ...]}, worst magnitude."""
     out, worst = {}, [0]
 
-    def rec(D, sc, n, chain, posts):
+    def rec(D, sc, n, chain, posts, tn):
         if n == inst["DEPTH"]:
             out[chain] = posts
             return
@@ -301,11 +373,12 @@ def o_tree(inst):
                 elif a and isinstance(a[0], (F, int)):
                     extra = [a]
                 worst[0] = max(worst[0], magnitude(D, post, [obs], *extra))
-                rec(post, sc2, n + 1, chain + ((op, j + 1),), posts + [(post, obs)])
+                tn2 = o_tiny_after(inst, D, tn, sc2, op, j, a, post)
+                rec(post, sc2, n + 1, chain + ((op, j + 1),), posts + [(post, obs, tn2)], tn2)
 
     D0 = o_distof(inst["init"])
     worst[0] = magnitude(D0)
-    rec(D0, list(inst["init"]["k"]), 0, (), [])
+    rec(D0, list(inst["init"]["k"]), 0, (), [], o_tiny0(inst["init"]))
     return out, worst[0]
 
 
@@ -353,8 +426,14 @@ def build(rec, labels, variant):
     if variant == "det_cls":
         return DictDistribution.deterministic(evs[0])
     if variant == "softmax":
-        return SoftmaxDistribution({e: s * LN2 for e, s in zip(evs, rec["k"])})
+        return SoftmaxDistribution(dict(zip(evs, real_scores(rec, rec["k"]))))
     raise ValueError(variant)
+
+
+def real_scores(rec, k, shift=0.0):
+    """The float scores handed to the real SoftmaxDistribution: k ln 2 (+ shift), -inf where flagged."""
+    ni = rec.get("ni") or [0] * len(k)
+    return [float("-inf") if f else s * LN2 + shift for s, f in zip(k, ni)]
 
 
 DRIFT_VARIANTS = {"uniform_set", "uniform_keys"}
@@ -391,7 +470,7 @@ class Case:
     """One instance bound to concrete labels."""
 
     def __init__(self, inst, pool, perm):
-        self.inst = inst
+        self.inst = fix_inst(inst)
         self.pool = pool
         self.perm = perm
         base = POOLS[pool]
@@ -441,7 +520,7 @@ def real_step(case, obj, pre, op, j, salt, scores):
     if op == "shift":
         from msdm.core.distributions import SoftmaxDistribution
         evs = [conc(ev_of(e), labels) for e in inst["init"]["ev"]]
-        return SoftmaxDistribution({e: s * LN2 for e, s in zip(evs, scores)})
+        return SoftmaxDistribution(dict(zip(evs, real_scores(inst["init"], scores))))
     raise ValueError(op)
 
 
@@ -524,6 +603,28 @@ def compare(case, obj, exp, *, ordered=True, outside=True):
     return viol, drift
 
 
+def softmax_corner_checks(case, obj, rec, scores):
+    """Clauses of the softmax corner inputs on the real floats: normalised, a -inf score is exactly 0 and
+    still listed, a tiny event (score > 64 ln 2 below the maximum) has probability <= 1e-18."""
+    out = []
+    tot = sum(obj.values())
+    if not (abs(tot - 1.0) <= TOL):
+        out.append(("softmax-normalised", f"total {tot!r}"))
+    tn = o_tiny0(rec, scores)
+    ni = rec.get("ni") or [0] * len(rec["ev"])
+    for e, f in zip(rec["ev"], ni):
+        ce = conc(ev_of(e), case.labels)
+        if ce not in obj:
+            out.append(("softmax-support", f"event {ce!r} missing from the distribution"))
+            continue
+        p = obj[ce]
+        if f and not (p == 0.0):
+            out.append(("softmax-neg-inf", f"P({ce!r}) = {p!r} for a score of -inf (must be exactly 0)"))
+        if ev_of(e) in tn and not (0.0 <= p <= TINY_REAL):
+            out.append(("softmax-tiny", f"P({ce!r}) = {p!r} for a score more than 64 ln 2 below the maximum"))
+    return out[:1]
+
+
 def shape_of(D):
     ps = list(D.values())
     tags = []
@@ -566,9 +667,11 @@ def judge(ctx, cases, *, corrupt=None, tamper=None, ndraws=None, corrupt_init=No
         posts = []
         for h in r["hist"]:
             post = {ev_of(e): frac(p) for e, p in zip(h["post"]["ev"], h["post"]["p"])}
-            posts.append((post, frac(h["obs"])))
+            posts.append((post, frac(h["obs"]), {ev_of(e) for e in h["tiny"]}))
         init = {ev_of(e): frac(p) for e, p in zip(r["init"]["ev"], r["init"]["p"])}
         per[i][chain] = (init, posts)
+        if {ev_of(e) for e in r["tiny0"]} != o_tiny0(cases[i].inst["init"]):
+            raise TLCFailure(f"TLA+ SoftmaxTiny and the Python oracle disagree on instance {i + 1}")
     for i, c in enumerate(cases):
         tree = trees[i]
         if set(tree) != set(per[i]):
@@ -580,8 +683,8 @@ def judge(ctx, cases, *, corrupt=None, tamper=None, ndraws=None, corrupt_init=No
         for chain, (init, posts) in per[i].items():
             if init != D0 or list(init) != list(D0):
                 raise TLCFailure(f"TLA+ DistOf and Python oracle disagree on instance {i + 1}: {init} vs {D0}")
-            for k, ((tp, tobs), (pp, pobs)) in enumerate(zip(posts, tree[chain])):
-                if tp != pp or tobs != pobs or (chain[k][0] != "and" and list(tp) != list(pp)):
+            for k, ((tp, tobs, ttn), (pp, pobs, ptn)) in enumerate(zip(posts, tree[chain])):
+                if tp != pp or tobs != pobs or ttn != ptn or (chain[k][0] != "and" and list(tp) != list(pp)):
                     raise TLCFailure(f"TLA+ oracle and Python oracle disagree on instance {i + 1} chain {chain} "
                                      f"step {k + 1}: {tp} / {tobs} vs {pp} / {pobs}")
             ctx.count("oracle_crosschecks")
@@ -608,7 +711,13 @@ def replay_case(ctx, i, c, chains, traces, ndraws, corrupt, corrupt_init=None):
         nonlocal case_ok
         site = CLASS_OF[variant] if all(o in ("shift", "expect") for o, _ in prefix) else "DictDistribution"
         meth = METHOD.get(op, "construct") if op else "construct"
-        sig = f"C11:{site}.{meth}{operand}:{clause}:{shape_of(pre)}"
+        shape = shape_of(pre)
+        if inst["init"]["kind"] == "softmax" and variant == "softmax" and site == "SoftmaxDistribution":
+            if any(inst["init"]["ni"]):
+                shape += "+neg-inf-score"
+            if o_tiny0(inst["init"]):
+                shape += "+wide-scores"
+        sig = f"C11:{site}.{meth}{operand}:{clause}:{shape}"
         what = f"{site}.{meth}{operand} [{clause}] after {list(prefix)}: {text}"
         if variant in DRIFT_VARIANTS:
             drift_once(ctx, f"{site}.{meth}", clause, {"what": what[:200]})
@@ -639,19 +748,20 @@ def replay_case(ctx, i, c, chains, traces, ndraws, corrupt, corrupt_init=None):
         drifts(v, ds, f"{CLASS_OF[v]} construct")
         nodes[(v, ())] = (None if viol else obj, D0, list(inst["init"]["k"]))
         if v == "softmax" and not viol:
-            # normalised (exactly the clause of the statement, on the real floats)
-            tot = sum(obj.values())
-            if abs(tot - 1.0) > TOL:
-                report(v, (), None, "", "softmax-normalised", f"total {tot!r}", D0)
+            # normalised, -inf scores exactly 0, tiny events <= 1e-18 (on the real floats)
+            for clause, text in softmax_corner_checks(c, obj, inst["init"], inst["init"]["k"]):
+                report(v, (), None, "", clause, text, D0)
             # shift by an arbitrary (non ln 2) real as well: log-ratios are score differences
             from msdm.core.distributions import SoftmaxDistribution
             evs = list(obj.keys())
             for sh in (0.3, -745.2, 710.4):
                 try:
-                    o2 = SoftmaxDistribution({e: s * LN2 + sh for e, s in zip(evs, inst["init"]["k"])})
+                    o2 = SoftmaxDistribution(dict(zip(evs, real_scores(inst["init"], inst["init"]["k"], sh))))
                     ctx.evaluations += 1
-                    if any(abs(o2[e] - obj[e]) > TOL for e in evs) or abs(sum(o2.values()) - 1.0) > TOL:
+                    if not all(abs(o2[e] - obj[e]) <= TOL for e in evs) or not (abs(sum(o2.values()) - 1.0) <= TOL):
                         report(v, (), "shift", "", "softmax-shift", f"scores + {sh}: {dict(o2)} vs {dict(obj)}", D0)
+                    for clause, text in softmax_corner_checks(c, o2, inst["init"], inst["init"]["k"]):
+                        report(v, (), "shift", "", clause, f"scores + {sh}: {text}", D0)
                 except Exception as e:                  # noqa: BLE001
                     report(v, (), "shift", "", "error", f"scores + {sh} raised {type(e).__name__}: {e}", D0)
     # chains
@@ -667,7 +777,7 @@ def replay_case(ctx, i, c, chains, traces, ndraws, corrupt, corrupt_init=None):
                     break
                 pobj, pre, scores = nodes[(v, chain[:k - 1])]
                 op, j = prefix[-1]
-                exp, eobs = posts[k - 1]
+                exp, eobs, _tn = posts[k - 1]
                 if pobj is None:
                     nodes[(v, prefix)] = (None, exp, scores)
                     continue
@@ -699,6 +809,8 @@ def replay_case(ctx, i, c, chains, traces, ndraws, corrupt, corrupt_init=None):
                     nodes[(v, prefix)] = (pobj if ok else None, exp, sc2)
                     continue
                 viol, ds = compare(c, out, exp, ordered=(op != "and" and v != "uniform_set"))
+                if op == "shift" and not viol:
+                    viol = softmax_corner_checks(c, out, inst["init"], sc2)
                 for clause, text in viol:
                     report(v, chain[:k - 1], op, operand, clause, text, pre, j)
                 drifts(v, ds, f"{METHOD[op]} after {list(chain[:k - 1])}")
@@ -818,7 +930,15 @@ def make_cases(rng, n, depth, ctx=None):
         # cycle the initial kinds so that every kind is present in every tier
         inst["init"] = rand_rec(rng, kind=KINDS[len(cases) % len(KINDS)], allow_zero_mass=True)
         if len(cases) % 24 == 8:      # corner: a one-point support whose only entry has weight zero
-            inst["init"] = {"kind": rng.choice(["dict", "table"]), "ev": [[rng.randint(1, NA)]], "w": [0], "d": 1, "k": [0]}
+            inst["init"] = {"kind": rng.choice(["dict", "table"]), "ev": [[rng.randint(1, NA)]], "w": [0], "d": 1, "k": [0], "ni": [0]}
+        if inst["init"]["kind"] == "softmax":
+            # softmax corners: plain / very wide spread / -inf scores / both, in turn
+            style = ["plain", "wide", "ninf", "both", "wide", "ninf"][(len(cases) // len(KINDS)) % 6 if len(cases) % len(KINDS) == 1
+                                                                       else (len(cases) // len(KINDS) + 3) % 6]
+            if style != "plain":
+                if len(inst["init"]["ev"]) == 1:
+                    inst["init"] = rand_rec(rng, kind="softmax", size=rng.choice([2, 3, 3]))
+                softmax_corner(rng, inst["init"], style)
         _, mag = o_tree(inst)
         if mag >= MAGLIM:
             if ctx is not None:
@@ -842,7 +962,7 @@ def make_exhaustive(rng, ctx=None):
                 for _ in range(20):
                     inst = make_instance(rng, 2)
                     inst["init"] = {"kind": "dict" if (len(cases) % 2) else "table", "ev": [[a] for a in rng.sample(range(1, NA + 1), size)],
-                                    "w": list(w), "d": d, "k": [0] * size}
+                                    "w": list(w), "d": d, "k": [0] * size, "ni": [0] * size}
                     if o_tree(inst)[1] < MAGLIM:
                         break
                 else:
